@@ -129,18 +129,23 @@ static std::string do_root(Args& a)
 	a.end();
 	return run_forked([&](Out& o) {
 		std::vector<double> xs;
+		std::vector<double> fs;	  // the values the library saw (the "double function")
 		auto cb = [&](double x) {
 			xs.push_back(x);
-			return fn(x);
+			double v = fn(x);
+			fs.push_back(v);
+			return v;
 		};
 		// the max-iteration warning goes to std::cout; diagnostics of the exit paths go to std::cerr
 		std::ostringstream cap_out;
 		std::streambuf* ob = std::cout.rdbuf(cap_out.rdbuf());
 		double r		   = Find_Root(cb, xl, xr, acc);
 		std::cout.rdbuf(ob);
-		int maxit = cap_out.str().find("Iterations exceed") != std::string::npos;
+		// the iteration-limit warning (the only output of Find_Root on stdout) is recognised by its existence, not its wording
+		int maxit = cap_out.str().find("Warning") != std::string::npos;
 		o << r << maxit;
 		o.list(xs);
+		o.list(fs);
 	});
 }
 
